@@ -169,9 +169,12 @@ func (s *Storer) DelRunId(id string) error {
 func (s *Storer) resetDataSet() {
 	s.logger.Debugf("Storer reset dataset : %s", s.dir)
 
+	// the old data set is closed outside dataSetMux : a log reader that waits for more data holds its own
+	// lock while it asks the storer for the newest segment (dataSetMux), and closing that reader needs its lock
 	s.dataSetMux.Lock()
-	defer s.dataSetMux.Unlock()
 	ra := s.dataSet
+	s.dataSet = newDataSet(nil, nil)
+	s.dataSetMux.Unlock()
 	if ra != nil {
 		ra.Close()
 	}
@@ -190,8 +193,6 @@ func (s *Storer) resetDataSet() {
 		}
 		return nil
 	})
-
-	s.dataSet = newDataSet(nil, nil)
 }
 
 func (s *Storer) Close() error {
